@@ -29,7 +29,7 @@ results = {}
 
 
 def worker(k):
-    clone = "/tmp/rrepo_%d" % k
+    clone = "/tmp/rrepo_%d_%d" % (os.getpid(), k)     # unique per invocation: concurrent runs must not share (or remove) clones
     shutil.rmtree(clone, ignore_errors=True)
     subprocess.run(["git", "clone", "-q", "/repo", clone], check=True)
     env = dict(os.environ)
